@@ -223,8 +223,27 @@ func checkC12(c *Ctx) {
 		}
 		// the marshalled (returned) object
 		var final *ssa.Call
-		for _, call := range callsIn(f, nameIs("google.golang.org/protobuf/proto.Marshal")) {
+		objArg := 0
+		for _, call := range callsIn(f, nameIs("google.golang.org/protobuf/proto.Marshal", "(google.golang.org/protobuf/proto.MarshalOptions).Marshal", "(google.golang.org/protobuf/proto.MarshalOptions).MarshalAppend")) {
 			if cc, ok := call.(*ssa.Call); ok {
+				switch {
+				case strings.HasSuffix(calleeName(&cc.Call), ").Marshal"):
+					objArg = 1
+				case strings.HasSuffix(calleeName(&cc.Call), ").MarshalAppend"):
+					objArg = 2
+					// the destination must be nil or storage of this call: a buffer kept on the processor is shared by
+					// concurrent requests and rewritten before the socket has copied the previous frame
+					dst := cc.Call.Args[1]
+					okDst := false
+					if k, isC := dst.(*ssa.Const); isC && k.Value == nil {
+						okDst = true
+					}
+					if !okDst && !inputDerived(dst, 0, map[ssa.Value]bool{}) && !resliceOfInput(dst, 0, map[ssa.Value]bool{}) {
+						okDst = true
+					}
+					r.Check(okDst, "C12.2", "processC2SWrapper: the forwarded bytes are storage of this request", cc.Pos(), fnName(f), "MarshalAppend onto nil / a local buffer",
+						"the forwarded wrapper is marshalled into "+firstN(pathOf(dst), 50)+", a buffer that outlives the request: a concurrent registration rewrites it before the publisher has sent it, and the stations receive another client's registration in this one's place")
+				}
 				for _, ret := range *cc.Referrers() {
 					if _, ok := ret.(*ssa.Return); ok {
 						final = cc
@@ -242,7 +261,7 @@ func checkC12(c *Ctx) {
 		if final == nil {
 			r.Unk("C12.2", "processC2SWrapper: returned proto.Marshal", f.Pos(), fnName(f), "no `return proto.Marshal(x)` found")
 		} else {
-			obj := stripConv(final.Call.Args[0])
+			obj := stripConv(final.Call.Args[objArg])
 			_, fresh := obj.(*ssa.Alloc)
 			r.Check(fresh, "C12.2", "processC2SWrapper: forwarded message is a freshly allocated wrapper", final.Pos(), fnName(f), pathOf(obj),
 				"the message forwarded to the stations is not a fresh object (it is "+pathOf(obj)+"): client-supplied fields such as RegRespBytes/RegRespSignature are forwarded verbatim")
@@ -710,6 +729,44 @@ func checkC12(c *Ctx) {
 		}
 		if n < 2 {
 			r.Unk("C12.6", "processBdReq: weighted-choice loops", f.Pos(), fnName(f), fmt.Sprintf("found %d of 2 expected loops comparing a draw with *CumulativeWeights[i]", n))
+		}
+	}
+
+	// ---- C12.8 the configured override subnet is the network the operator wrote: the draw starts at IPNet.IP, so the
+	// stored network is ParseCIDR's masked result, untouched
+	r.Rule("C12.8", "override subnets are stored as the masked network ParseCIDR returns", 1)
+	if f := c.fn("C12.8", "pkg/regserver/regprocessor", "Ipnet", "UnmarshalText"); f != nil {
+		var parse *ssa.Call
+		for _, ci := range callsIn(f, nameIs("net.ParseCIDR")) {
+			parse, _ = ci.(*ssa.Call)
+		}
+		if parse == nil {
+			r.Unk("C12.8", "Ipnet.UnmarshalText: net.ParseCIDR", f.Pos(), fnName(f), "not found")
+		} else {
+			netPath := pathOf(parse) + "#1"
+			stored, touched := false, ""
+			eachInstr(f, func(in ssa.Instruction) {
+				st, ok := in.(*ssa.Store)
+				if !ok {
+					return
+				}
+				fa, ok := st.Addr.(*ssa.FieldAddr)
+				if !ok {
+					return
+				}
+				if o, fld, ok := fieldOwner(fa); ok && o == "regprocessor.Ipnet" && fld == "IPNet" {
+					stored = pathOf(st.Val) == netPath
+					if !stored {
+						touched = "n.IPNet = " + firstN(pathOf(st.Val), 60)
+					}
+					return
+				}
+				if pathOf(fa.X) == netPath {
+					touched = firstN(pathOf(fa), 60) + " = " + firstN(pathOf(st.Val), 60)
+				}
+			})
+			r.Check(stored && touched == "", "C12.8", "Ipnet.UnmarshalText: stores the network returned by net.ParseCIDR unchanged", parse.Pos(), fnName(f), "n.IPNet = ParseCIDR(text)#1; no field of it is written",
+				"the stored override subnet is not the masked network net.ParseCIDR returned ("+touched+"): the override draw starts at IPNet.IP, so a CIDR written with host bits yields phantoms outside the configured subnet")
 		}
 	}
 
